@@ -1737,8 +1737,8 @@ class JSExec(GoExec, SpecMixin, CallsMixin):
         old = st.clone()
         self._pre_binds = dict(binds)
         envp = SpecEnv(st, binds, old)
-        for cl in c.get('requires'):
-            self.oblige(st, 'pre@call %s@%s' % (name, line), self.sev_bool(envp, cl.expr), src=line)
+        for ci, cl in enumerate(c.get('requires')):
+            self.oblige(st, 'pre%s@call %s@%s' % ('' if ci == 0 else '#%d' % (ci + 1), name, line), self.sev_bool(envp, cl.expr), src=line)
         tcs = [self.sev_bool(envp, cl.expr) for cl in c.get('throws_if')]
         if tcs and self.fork(st, z3.Or(tcs) if len(tcs) > 1 else tcs[0]):
             raise PanicEx(c.get('throws_msg')[0].text.strip() if c.get('throws_msg') else 'callee %s throws' % name)
